@@ -43,4 +43,9 @@ theorem byteReader_model_eq_code : (words [0x00, 0x01, 0x03, 0x04]).map drainRow
 theorem annexb_model_eq_code : (words [0x00, 0x01, 0x03, 0xa5]).map annexbRow = Generated.annexbRows := by
   decide +kernel
 
+/-- the call shapes of the **real** reader on this whole domain (C18 read off the regenerated graph): in all 6 461 runs every
+slice handed to the handler was non-empty and every call without slices ended a unit -/
+theorem annexb_code_calls_shaped : ∀ row ∈ Generated.annexbShapeRows, ∀ x ∈ row, x = 1 := by
+  decide +kernel
+
 end ByteProof
